@@ -209,7 +209,7 @@ func StdOutcome(v *Verdict, out *simrt.Outcome) {
 // BlockedTasks reports a violation when a run ended with tasks that can never go on, other than a reader goroutine
 // of the library waiting in Read for more bytes (which is where it belongs while the connection is open).
 func BlockedTasks(v *Verdict, out *simrt.Outcome, what string) {
-	if out == nil || out.Budget || v.Class != "" {
+	if out == nil || out.Budget || out.Livelock != "" || v.Class != "" {
 		return
 	}
 	for _, pk := range out.Parked {
@@ -224,7 +224,8 @@ func BlockedTasks(v *Verdict, out *simrt.Outcome, what string) {
 // ClientBlocked is BlockedTasks for the tasks of the harness only (the calls a user makes): goroutines the library
 // started are not looked at.
 func ClientBlocked(v *Verdict, out *simrt.Outcome, what string) {
-	if out == nil || out.Budget || v.Class != "" {
+	// (a run that was ended by the livelock detector leaves its tasks where they were: that is the detector's verdict)
+	if out == nil || out.Budget || out.Livelock != "" || v.Class != "" {
 		return
 	}
 	for _, pk := range out.Parked {
